@@ -1,6 +1,6 @@
 // @unit c08_unique property=C08 attach=typify-impl/src/util.rs
-// @h c08_unique_literals tier=off bounded=enumerated-literal-name-lists-of-3
-// @canary canary_c08_unique
+// @h c08_unique_literals tier=native bounded=enumerated-literal-name-lists-of-3
+// @native-canary canary_c08_unique
 //
 // C08 -- "identifiers ... distinct within their scope": the helper that decides whether the
 // variant identifiers of an enum are pairwise distinct (`util::unique`, behind
@@ -9,8 +9,9 @@
 //   P3  unique(items) == (the items are pairwise distinct) -- also when the equal items are
 //       NOT adjacent
 //
-// RESULT: out of reach. `unique` uses a HashSet (RandomState, SipHash); CBMC times out (15 min)
-// even on two literal items. Kept with tier=off; NOT part of the C08 check.
+// `unique` uses a HashSet (RandomState, SipHash): CBMC times out (15 min) even on two literal
+// items. BOUNDED STAND-IN: the five literal lists below are executed natively against the real
+// function (tier=native), never counted as proved.
 
 use super::*;
 
@@ -25,15 +26,11 @@ fn check(a: &str, b: &str, c: &str, want: bool) {
 #[kani::proof]
 #[kani::unwind(40)]
 fn c08_unique_literals() {
-    let k: u8 = kani::any();
-    match k {
-        0 => check("FooBar", "Other", "Baz", true),
-        1 => check("FooBar", "FooBar", "Other", false),
-        2 => check("FooBar", "Other", "FooBar", false),
-        3 => check("Other", "FooBar", "FooBar", false),
-        _ => check("A", "a", "B", true),
-    }
-    kani::cover!(k == 2, "[must] the non-adjacent duplicate is probed");
+    check("FooBar", "Other", "Baz", true);
+    check("FooBar", "FooBar", "Other", false);
+    check("FooBar", "Other", "FooBar", false);
+    check("Other", "FooBar", "FooBar", false);
+    check("A", "a", "B", true);
 }
 
 #[kani::proof]
